@@ -61,3 +61,20 @@ claim("C20",
       "closing iteration, deregister, close. Correspondence: a tracer double records the real span events for pipelines mixing every outcome x every ending; the same balance predicate runs as a monitor.",
       CONN_TB + "The tracer library itself (go-tracing) is replaced by a double.",
       "Coq theorem (balanced span trace for all inputs and handlers) + differential execution with tracer double")
+claim("C05",
+      "Theorems, for every handler: decode(print r) = expect r for EVERY valid request r of an independent typed grammar of the 38 commands that map onto one handler operation "
+      "(39 constructors; option lists in any order with validity predicates, any letter case of option words, any accepted numeral, exclusive-range markers, durations/timestamps, "
+      "1..k list elements) - exactly one handler call with exactly those arguments, result passed through; lifted through the dispatcher for any letter case of the command name, "
+      "on the issuing connection's database, state untouched; unknown command: error and no event; application executors dispatched for any casing; reply = handler's message. "
+      "Correspondence: per command 45 (600 thorough) generated vectors incl. boundary integers, exactly representable floats, binary strings, equal keys, three casings; expected "
+      "call and reply come from the Python grammar, not from the model; recorded (deep-copied) handler calls compared.",
+      CONN_TB + "ASCII names (strings.ToUpper is Unicode-aware); float tokens limited to decimal literals exactly representable in binary64 and infinities (strconv.ParseFloat not modelled).",
+      "Coq theorem decode∘print = id over a typed command grammar (all handlers) + differential execution with recording handler double")
+claim("C10",
+      "Theorems, for every handler: for ANY argument list a single-operation command is either refused with no event at all or is exactly one handler call (no partial execution); "
+      "every strict prefix of the required arguments of every valid request is refused; odd or empty key/value lists (MSET MSETNX HMSET CONFIG SET) and a score without member (ZADD) "
+      "are refused; a non-positive SET expiry is refused in any context. Correspondence: every command of the grammar x every position omitted / null / non-numeric, overflowing, "
+      "fractional tokens (swept above the int64-safe expiry limits incl. products that wrap to positive) x pair lists cut odd x every SET option clash, enumerated completely, each "
+      "followed by PING/ECHO and GET to show the connection is unaffected; model and implementation must both reject with zero calls.",
+      CONN_TB + "Null / non-numeric / SET-clash rejections are established on the model by exhaustive correspondence enumeration and concrete vm_compute examples, not yet by a general theorem per position.",
+      "Coq theorems (no partial execution; missing/dangling arguments refused) + exhaustive malformation enumeration against the real loop")
